@@ -5,6 +5,7 @@ import Driver.Cond
 import Driver.Sym
 import Driver.TwoPass
 import Driver.Sim
+import Driver.SimX
 import Driver.Mem
 import Driver.FileIO
 import Driver.Safe
@@ -12,6 +13,8 @@ import Driver.Det
 import Driver.Util
 import Driver.Listing
 import Driver.Macro
+import Driver.Link
+import Driver.Reader
 
 def dispatch (line : String) : String :=
   match (line.trimAscii.toString.splitOn " ").filter (· ≠ "") with
@@ -30,7 +33,9 @@ def dispatch (line : String) : String :=
   | "blk" :: args => Driver.Cond.handleBlk args
   | "sym" :: args => Driver.Sym.handle args
   | "twopass" :: args => Driver.TwoPass.handle args
+  | "twopass430" :: args => Driver.TwoPass.handle430 args
   | "sim" :: args => Driver.Sim.handle args
+  | "simx" :: args => Driver.SimX.handle args
   | "simrun" :: args => Driver.Sim.handleRun args
   | "arch" :: args => Driver.Sim.handleArch args
   | "dislen" :: args => Driver.Sim.handleDisLen args
@@ -53,6 +58,10 @@ def dispatch (line : String) : String :=
   | "unum" :: args => Driver.Util.handleNum args
   | "lst" :: args => Driver.Listing.handle args
   | "mexp" :: args => Driver.Macro.handleMexp args
+  | "link" :: args => Driver.Link.handle args
+  | "tk" :: args => Driver.Reader.handleTk args
+  | "mp" :: args => Driver.Reader.handleMp args
+  | "mx" :: args => Driver.Reader.handleMx args
   | _ => "bad-op"
 
 partial def loop (h : IO.FS.Stream) (out : IO.FS.Stream) : IO Unit := do
